@@ -207,6 +207,9 @@ def run_engine(prop, tier, seed, extra_args=None):
                "--threads", os.environ.get("FCV_THREADS", str(os.cpu_count() or 16)), "--replay-dir", REPLAYS, "--out", frag_path]
         if extra_args:
             cmd += extra_args
+        if os.environ.get("FCV_CASES"):
+            # debugging aid (smaller or larger budget); the registered commands never set it
+            cmd += ["--cases", os.environ["FCV_CASES"]]
         p = subprocess.run(cmd, env=env(), stdout=subprocess.PIPE, stderr=subprocess.STDOUT, text=True)
         out = p.stdout
         frag = None
